@@ -9,8 +9,12 @@ PROFILES = [(3, {"n_setup": (3, 6), "share_fd_prob": 0.05, "script_prob": 0.9, "
 
 
 def main(tier, seed):
-    return p_seqprops.run("C01", tier, seed, PROFILES, props=PROPS)
+    import p_rawsrc
+    return p_seqprops.run("C01", tier, seed, PROFILES, props=PROPS, extra_front=p_rawsrc.extra_front_for("C01"))
 
 
 def replay(path):
+    if "rawsrc case" in open(path).read():
+        import p_rawsrc
+        return p_rawsrc.replay(path)
     return p_seqprops.replay("C01", path, props=PROPS)
